@@ -56,7 +56,16 @@ impl Eq for CloseChannelEndResult {}
 // to the connection that holds the sender end
 impl IntoMessage for ItemReceived { open spec fn min_minor() -> u32 { 0 } closed spec fn allowed_for(&self, receiver: &ConnectionState) -> bool { receiver.receivers@.contains(self.cookie) } }
 impl IntoMessage for AddChannelCapacity { open spec fn min_minor() -> u32 { 0 } closed spec fn allowed_for(&self, receiver: &ConnectionState) -> bool { receiver.senders@.contains(self.cookie) } }
-impl IntoMessage for ChannelEndClosed { open spec fn min_minor() -> u32 { 0 } open spec fn allowed_for(&self, receiver: &ConnectionState) -> bool { true } }
+// ROUTING (C05): "the peer is told when the other end is closed": the notification goes to the holder of the OTHER end
+impl IntoMessage for ChannelEndClosed {
+    open spec fn min_minor() -> u32 { 0 }
+    closed spec fn allowed_for(&self, receiver: &ConnectionState) -> bool {
+        match self.end {
+            ChannelEnd::Sender => receiver.receivers@.contains(self.cookie),
+            ChannelEnd::Receiver => receiver.senders@.contains(self.cookie),
+        }
+    }
+}
 impl IntoMessage for CloseChannelEndReply { open spec fn min_minor() -> u32 { 0 } open spec fn allowed_for(&self, receiver: &ConnectionState) -> bool { true } }
 impl IntoMessage for ClaimChannelEndReply { open spec fn min_minor() -> u32 { 0 } open spec fn allowed_for(&self, receiver: &ConnectionState) -> bool { true } }
 // ROUTING (C05): "the peer is told when the other end is claimed": the notification goes to the connection that holds the
